@@ -84,6 +84,14 @@ def gen_cases(rng, tier):
                   "tol": rng.choice([None, None, None, 0.5, 1e6])})
         cases.append(Case("solve", a, a["max_iters"] > 0))
         cases.append(Case("solve_trace", dict(a), a["max_iters"] > 0))
+    # ---- L-BFGS-B wrapper (scipy is an oracle): objective never above the start, bounds, callback slot, reuse
+    for k in range(40 if big else 10):
+        shp = rng.choice([(2, 2), (2, 3), (3, 2, 2)])
+        a = U.rand_problem(rng, shp)
+        n = math.prod(shp)
+        a.update({"maxiter": rng.choice([1, 3, 20]), "callback": rng.random() < 0.5,
+                  "mask": None if rng.random() < 0.6 else [rng.randint(0, 1) for _ in range(n)]})
+        cases.append(Case("lbfgsb", a, True))
     # ---- reuse of one solver object
     for k in range(30 if big else 9):
         opt = ["sgd", "adam", "adagrad"][k % 3]
@@ -113,6 +121,8 @@ def run_impl(c):
             o = U.run_solve(a)
         elif c.op == "reuse":
             o = U.run_reuse(a)
+        elif c.op == "lbfgsb":
+            o = U.run_lbfgsb(a)
         else:
             raise ValueError(c.op)
     except Exception as ex:
@@ -213,6 +223,15 @@ def coq_check(c, o):
                 f"{gnat(len(o['ests']) - 1)} {gnat(o['nfails'])} {gnat(o['n_epoch'])} && "
                 f"(vec_eqb (zreported_trace {gzlist(ests)} {s}) {gzlist(trace)} || vec_eqb (zfull_trace {gzlist(ests)} {s}) {gzlist(trace)}) && "
                 f"{bounds} && {'true' if o['boundary_lb_ok'] else 'false'}")
+    if c.op == "lbfgsb":
+        vals = [o["f0"]] + [r[k] for r in o["outs"] for k in ("final_f", "f_end")]
+        (zs, _) = U.scale_many([vals], [])
+        f0, rest = zs[0][0], zs[0][1:]
+        ok = all(r["init_unchanged"] and r["shapes_ok"] and (o["lb"] is None or r["min_entry"] >= o["lb"]) for r in o["outs"])
+        same = o["outs"][0]["flat"] == o["outs"][1]["flat"]
+        return (f"forallb (fun v => Z.leb v {gz(f0)}) {gzlist(rest)} && {'true' if ok else 'false'} && "
+                f"{'true' if same else 'false'} && {'true' if o['callback_restored'] else 'false'} && "
+                f"{'false' if o['callback_called'] is False else 'true'}")
     if c.op == "reuse":
         if any("exc" in r for r in o["reused"] + o["fresh"]):
             return "false"
